@@ -64,6 +64,8 @@ type Spec struct {
 	// (parser.NewATXHeadingParser(parser.WithAutoHeadingID()) ... in a caller-built parser.NewParser) instead of to the parser
 	// as a whole (core only).
 	HeadingRoute bool
+	// Rev (with Direct): the flags are given to html.NewRenderer in the opposite order (HardWraps, XHTML, Unsafe)
+	Rev bool
 	// Direct: renderer flags are given to html.NewRenderer(...) itself, inside a caller-built renderer.NewRenderer, instead
 	// of goldmark.WithRendererOptions (core only: extension renderers receive options by name, not through this route).
 	Direct bool
@@ -145,6 +147,9 @@ func (s Spec) Name() string {
 	}
 	if s.HeadingRoute {
 		b.WriteString(",headingroute")
+	}
+	if s.Rev {
+		b.WriteString(",rev")
 	}
 	if s.Direct {
 		b.WriteString(",direct")
@@ -419,6 +424,11 @@ func (s Spec) Build() goldmark.Markdown {
 		if s.HardWraps {
 			ho = append(ho, html.WithHardWraps())
 		}
+		if s.Rev {
+			for i, j := 0, len(ho)-1; i < j; i, j = i+1, j-1 {
+				ho[i], ho[j] = ho[j], ho[i]
+			}
+		}
 		opts := []goldmark.Option{goldmark.WithRenderer(renderer.NewRenderer(renderer.WithNodeRenderers(util.Prioritized(html.NewRenderer(ho...), 1000))))}
 		if po := s.ParserOptions(); po != nil {
 			opts = append(opts, goldmark.WithParserOptions(po...))
@@ -601,6 +611,8 @@ func Parse(name string) (Spec, bool) {
 			s.Rich4 = true
 		case p == "headingroute":
 			s.HeadingRoute = true
+		case p == "rev":
+			s.Rev = true
 		case p == "direct":
 			s.Direct = true
 		default:
